@@ -36,3 +36,204 @@ def zmax(xs):
 
 def lit(x):
     return toz(x)
+
+
+# =============================================================================================
+# MDP shapes: the discrete skeleton of a problem (concrete), rewards are left to the solver
+class Shape:
+    """S states 0..S-1 (labels optional), A actions, avail[s] = list of action indices,
+    rows[(s,a)] = {ns: Fraction}, absorb = set of explicitly absorbing states, s0 = {s: Fraction}"""
+
+    def __init__(self, S, A, avail, rows, absorb=(), s0=None, gamma=F(9, 10), name='', slabels=None, alabels=None):
+        self.S, self.A = S, A
+        self.avail = [list(a) for a in avail]
+        self.rows = {k: dict(v) for k, v in rows.items()}
+        self.absorb = set(absorb)
+        self.s0 = dict(s0) if s0 else {0: F(1)}
+        self.gamma = gamma
+        self.name = name
+        self.slabels = list(slabels) if slabels else list(range(S))
+        self.alabels = list(alabels) if alabels else ['a%d' % i for i in range(A)]
+        for (s, a), row in self.rows.items():
+            assert sum(row.values()) == 1, (s, a, row)
+        for s in range(S):
+            for a in self.avail[s]:
+                assert (s, a) in self.rows, (s, a)
+
+    def key(self):
+        return dict(name=self.name, S=self.S, A=self.A, gamma=str(self.gamma))
+
+    def with_(self, **kw):
+        import copy
+        o = copy.deepcopy(self)
+        for k, v in kw.items():
+            setattr(o, k, v)
+        return o
+
+    # ---- concrete structural analysis used by oracles (independent of the code under test)
+    def succ(self, s, a):
+        return [ns for ns, p in self.rows[(s, a)].items() if p > 0]
+
+    def reach_from(self, srcs, stop=()):
+        seen = set(srcs)
+        st = list(srcs)
+        while st:
+            s = st.pop()
+            if s in stop:
+                continue
+            for a in self.avail[s]:
+                for ns in self.succ(s, a):
+                    if ns not in seen:
+                        seen.add(ns)
+                        st.append(ns)
+        return seen
+
+    def is_proper(self, absorbing):
+        """every policy reaches `absorbing` with probability 1 from every state:
+        no closed set of non-absorbing states under any choice of actions."""
+        # a set C of non-absorbing states is a trap if every s in C has SOME action staying within C
+        C = set(range(self.S)) - set(absorbing)
+        changed = True
+        while changed:
+            changed = False
+            for s in list(C):
+                # s can be kept in a trap only if some available action has all successors in C
+                if not any(all(ns in C for ns in self.succ(s, a)) for a in self.avail[s]):
+                    C.discard(s)
+                    changed = True
+        return len(C) == 0
+
+
+def build_mdp(sx, sh, rew, is_absorbing=None, cls=None, explicit_lists=False):
+    """the repository's QuickTabularMDP whose callbacks read the shape's tables.
+    rew[(s,a,ns)] -> number (symbolic or menu)"""
+    from msdm.core.mdp import QuickTabularMDP
+    from msdm.core.distributions import DictDistribution
+    L, AL = sh.slabels, sh.alabels
+    si = {l: i for i, l in enumerate(L)}
+    ai = {l: i for i, l in enumerate(AL)}
+    c = sx.const
+
+    def nsd(s, a):
+        return DictDistribution({L[ns]: c(p) for ns, p in sh.rows[(si[s], ai[a])].items()})
+
+    def reward(s, a, ns):
+        return rew[(si[s], ai[a], si[ns])]
+
+    def actions(s):
+        return tuple(AL[a] for a in sh.avail[si[s]])
+    mdp = (cls or QuickTabularMDP)(
+        next_state_dist=nsd, reward=reward, actions=actions,
+        initial_state_dist=DictDistribution({L[s]: c(p) for s, p in sh.s0.items()}),
+        is_absorbing=(is_absorbing or (lambda s: si[s] in sh.absorb)),
+        discount_rate=c(sh.gamma) if sh.gamma != 1 else 1.0)
+    if explicit_lists:
+        mdp._state_list = tuple(L)
+        mdp._action_list = tuple(AL)
+    return mdp
+
+
+def sym_rewards(sx, sh, lo=-1, hi=1, per_next_state=True, tag='r'):
+    rew = {}
+    for s in range(sh.S):
+        for a in sh.avail[s]:
+            if per_next_state:
+                for ns in sh.rows[(s, a)]:
+                    rew[(s, a, ns)] = sx.real(f"{tag}_{s}_{a}_{ns}", lo, hi)
+            else:
+                v = sx.real(f"{tag}_{s}_{a}", lo, hi)
+                for ns in sh.rows[(s, a)]:
+                    rew[(s, a, ns)] = v
+    return rew
+
+
+def implicit_absorbing(sh, rew):
+    """the documented rule: all available actions self-loop w.p. 1 with reward 0 (and >= 1 action).
+    Symbolic rewards make this a symbolic condition (forks consistently with the code's own test)."""
+    out = set(sh.absorb)
+    for s in range(sh.S):
+        if s in out or not sh.avail[s]:
+            continue
+        if all(sh.rows[(s, a)].get(s, 0) == 1 for a in sh.avail[s]):
+            if all(bool(rew[(s, a, s)] == 0) for a in sh.avail[s]):
+                out.add(s)
+    return out
+
+
+def bellman_optimal(sx, sh, rew, absorbing, tag='V', dead=()):
+    """fresh V*, Q* constrained by the Bellman optimality equations of the masked model
+    (absorbing => 0); unique for gamma < 1 and for proper shapes at gamma = 1."""
+    c = sx.c
+    g = sh.gamma
+    V = {s: sx.fresh(f"{tag}{s}") for s in range(sh.S)}
+    Q = {}
+    for s in range(sh.S):
+        if s in absorbing or s in dead or not sh.avail[s]:
+            c.add(V[s].z == 0)
+            for a in sh.avail[s]:
+                Q[(s, a)] = 0
+            continue
+        qs = []
+        for a in sh.avail[s]:
+            q = core.ssum(sx.const(p) * (rew[(s, a, ns)] + sx.const(g) * (0 if (ns in absorbing or ns in dead) else V[ns]))
+                          for ns, p in sh.rows[(s, a)].items() if p > 0)
+            Q[(s, a)] = q
+            qs.append(toz(q))
+        c.add(V[s].z == zmax(qs))
+    c.model = None
+    return V, Q
+
+
+def policy_value(sx, sh, rew, absorbing, pi, tag='W', dead=()):
+    """fresh W solving the Bellman expectation equations for a (concrete or menu) policy pi[s][a]"""
+    c = sx.c
+    g = sh.gamma
+    W = {s: sx.fresh(f"{tag}{s}") for s in range(sh.S)}
+    for s in range(sh.S):
+        if s in absorbing or s in dead or not sh.avail[s]:
+            c.add(W[s].z == 0)
+            continue
+        v = core.ssum(pi[s][a] * core.ssum(sx.const(p) * (rew[(s, a, ns)] + sx.const(g) * (0 if (ns in absorbing or ns in dead) else W[ns]))
+                                           for ns, p in sh.rows[(s, a)].items() if p > 0)
+                      for a in sh.avail[s] if not (not is_sym(pi[s][a]) and pi[s][a] == 0))
+        c.add(W[s].z == toz(v))
+    c.model = None
+    return W
+
+
+# ---------------------------------------------------------------------------------------------
+def curated_shapes():
+    """small MDP skeletons chosen to contain: stochastic branching, cycles, state-dependent action
+    sets, explicit and implicit absorbing states, multi-state initial distributions, zero entries"""
+    H, Q1, Q3, T = F(1, 2), F(1, 4), F(3, 4), F(1, 3)
+    out = []
+    # 1-state self loop (never absorbing unless reward 0)
+    out.append(Shape(1, 1, [[0]], {(0, 0): {0: 1}}, name='loop1'))
+    # 2 states, goal explicit
+    out.append(Shape(2, 2, [[0, 1], [0]], {(0, 0): {0: H, 1: H}, (0, 1): {1: 1}, (1, 0): {1: 1}}, absorb=[1], name='two-goal'))
+    # 2 states cycle, no absorbing
+    out.append(Shape(2, 2, [[0, 1], [0, 1]], {(0, 0): {1: 1}, (0, 1): {0: Q1, 1: Q3}, (1, 0): {0: 1}, (1, 1): {1: 1}},
+                     s0={0: H, 1: H}, name='cycle2'))
+    # 3 states chain with slip, state-dependent actions, implicit-absorbing candidate at 2
+    out.append(Shape(3, 2, [[0, 1], [1], [0]], {(0, 0): {1: Q3, 0: Q1}, (0, 1): {2: H, 0: H}, (1, 1): {2: 1}, (2, 0): {2: 1}},
+                     name='chain3-implicit'))
+    # 3 states, explicit absorbing 2 with multi-state start (mass on absorbing)
+    out.append(Shape(3, 2, [[0, 1], [0, 1], [0]], {(0, 0): {1: 1}, (0, 1): {0: T, 1: T, 2: T}, (1, 0): {2: 1}, (1, 1): {0: H, 2: H}, (2, 0): {0: 1}},
+                     absorb=[2], s0={0: H, 2: H}, name='abs-start3'))
+    # 3 states fully connected stochastic
+    out.append(Shape(3, 2, [[0, 1]] * 3, {(0, 0): {0: Q1, 1: Q1, 2: H}, (0, 1): {1: 1}, (1, 0): {2: 1}, (1, 1): {0: H, 1: H},
+                                         (2, 0): {0: 1}, (2, 1): {2: Q3, 0: Q1}}, s0={0: Q1, 1: Q1, 2: H}, name='full3'))
+    return out
+
+
+def proper_shapes():
+    """goal-reaching skeletons (every policy reaches the absorbing state w.p. 1)"""
+    H, Q1, Q3, T = F(1, 2), F(1, 4), F(3, 4), F(1, 3)
+    out = []
+    out.append(Shape(2, 2, [[0, 1], [0]], {(0, 0): {0: H, 1: H}, (0, 1): {1: 1}, (1, 0): {1: 1}}, absorb=[1], gamma=F(1), name='p-two'))
+    out.append(Shape(3, 2, [[0, 1], [0, 1], [0]], {(0, 0): {1: 1}, (0, 1): {0: Q1, 2: Q3}, (1, 0): {2: 1}, (1, 1): {0: H, 2: H}, (2, 0): {2: 1}},
+                     absorb=[2], gamma=F(1), name='p-three'))
+    out.append(Shape(4, 2, [[0, 1], [0, 1], [0], [0]], {(0, 0): {1: H, 2: H}, (0, 1): {0: Q1, 3: Q3}, (1, 0): {3: 1}, (1, 1): {2: H, 0: Q1, 3: Q1},
+                                                       (2, 0): {3: Q3, 2: Q1}, (3, 0): {3: 1}},
+                     absorb=[3], gamma=F(1), s0={0: H, 1: Q1, 3: Q1}, name='p-four'))
+    return out
